@@ -108,7 +108,11 @@ func TestDiagSelf(t *testing.T) {
 	var runs int64
 	fmt.Sscanf(sd, "%d,%d", &seed, &runs)
 	shown := 0
-	for run := int64(0); run < runs && shown < 3; run++ {
+	from := int64(0)
+	if f := os.Getenv("SMSIM_DIAG_FROM"); f != "" {
+		from, _ = strconv.ParseInt(f, 10, 64)
+	}
+	for run := from; run < from+runs && shown < 3; run++ {
 		var tr [2][]string
 		for i := 0; i < 2; i++ {
 			c := core.NewRunCtx(t, "C07", "quick", core.NewTape(core.RunSeed(seed, run)))
@@ -116,7 +120,25 @@ func TestDiagSelf(t *testing.T) {
 			Run(c)
 			tr[i] = c.Trace
 		}
+		if os.Getenv("SMSIM_DIAG_EXTRA") != "" {
+			// what the worker does on a violation: one more execution from the recorded tape
+			c := core.NewRunCtx(t, "C07", "quick", core.NewTape(core.RunSeed(seed, run)))
+			Run(c)
+			if len(c.Viol) > 0 {
+				c3 := core.NewRunCtx(t, "C07", "quick", core.ReplayTape(c.Tape.Values()))
+				c3.KeepTrace = true
+				Run(c3)
+			}
+		}
 		n := 0
+		if len(tr[0]) != len(tr[1]) {
+			fmt.Fprintf(core.Stdout, "run %d lens differ %d %d\n", run, len(tr[0]), len(tr[1]))
+			for x := 0; x < 2; x++ {
+				for _, l := range tr[x][len(tr[x])-4:] {
+					fmt.Fprintf(core.Stdout, "   tail %d: %s\n", x, clip(l))
+				}
+			}
+		}
 		for i := 0; i < len(tr[0]) && i < len(tr[1]); i++ {
 			if tr[0][i] != tr[1][i] {
 				if n == 0 {
